@@ -768,6 +768,7 @@ def run(ctx):
     if cfg["replace"] and cfg["classes"]:
         # a replaced user object is legal, but keep the two dimensions apart
         pass
+    w.line_end = t.pick([None, None, "\r\n", "\r"], "line-ends-of-the-files")
     w.install(SIMFS)
     cfgcls = cfg["family"] + ("/classes" if cfg["classes"] else "") + ("/multi" if nfiles > 1 else "")
     ctx.sample = {
